@@ -57,7 +57,9 @@ type pending struct {
 	replay        interface{}
 }
 
-func newDeferred(n int) *deferred { return &deferred{viol: make([][]pending, n), sample: make([]interface{}, n)} }
+func newDeferred(n int) *deferred {
+	return &deferred{viol: make([][]pending, n), sample: make([]interface{}, n)}
+}
 
 func (d *deferred) violation(i int, key, id, what string, replay interface{}) {
 	d.viol[i] = append(d.viol[i], pending{key, id, what, replay})
@@ -209,6 +211,7 @@ func SignAll(rep Reporter, par ParFor, unit string, v *eddsa.Variant, signers []
 			rep.Count("second-oracle-agrees", 1)
 		}
 		rep.Distinct(v.Name, seed, msg, ctx)
+		rep.Count("sign-cases", 1) // enumerated (seed, message, context) triples, whatever the library answers
 		replay := map[string]string{"variant": v.Name, "seed": hx(seed), "msg": hx(msg), "ctx": hx(ctx), "want_pub": hx(wantPub), "want_sig": hx(wantSig)}
 		if i < 3 {
 			df.sample[i] = replay
